@@ -55,6 +55,7 @@ package token
 // @   modifies nothing
 
 // @ func token.(*File).init
+// @   replay f.Buffer
 // @   props C20 C03
 // @   requires FileOK(f)
 // @   requires reveal(LinesInv(f.lines, f.Buffer))
@@ -77,6 +78,7 @@ package token
 // @   loop 0 decreases len(callresult("strings.Split")) - rangeindex
 
 // @ func token.(*File).ResolvePos
+// @   replay f.Buffer
 // @   props C20 C03
 // @   requires FileOK(f)
 // @   requires pos <= len(f.Buffer)
@@ -93,6 +95,7 @@ package token
 // @   loop 0 decreases line + 1
 
 // @ func token.(*File).Position
+// @   replay f.Buffer
 // @   props C20 C03 C09
 // @   requires FileOK(f)
 // @   requires[C03,C09,C20] range: (pos < 0 || end < 0 || (pos <= end && end <= len(f.Buffer))) && pos <= len(f.Buffer) && end <= len(f.Buffer)
